@@ -19,7 +19,21 @@ import (
 	"github.com/cube2222/octosql/parser/sqlparser"
 	"github.com/cube2222/octosql/physical"
 	tvf "github.com/cube2222/octosql/table_valued_functions"
+
+	"github.com/cube2222/octosql/config"
+	csvds "github.com/cube2222/octosql/datasources/csv"
+	jsonds "github.com/cube2222/octosql/datasources/json"
+	linesds "github.com/cube2222/octosql/datasources/lines"
+	parquetds "github.com/cube2222/octosql/datasources/parquet"
 )
+
+// Ctx is the context cmd/root.go would pass: it carries the configuration with its defaults.
+func Ctx() context.Context {
+	cfg := &config.Config{}
+	cfg.Files.BufferSizeBytes = 4096 * 1024
+	cfg.Files.JSON.MaxLineSizeBytes = 1024 * 1024
+	return config.ContextWithConfig(context.Background(), cfg)
+}
 
 type Table struct {
 	Fields    []physical.SchemaField
@@ -113,7 +127,9 @@ func Env(tables map[string]*Table) physical.Environment {
 			Databases: map[string]func() (physical.Database, error){
 				"mem": func() (physical.Database, error) { return &memDB{tables: tables}, nil },
 			},
-			FileHandlers: map[string]func(ctx context.Context, name string, options map[string]string) (physical.DatasourceImplementation, physical.Schema, error){},
+			FileHandlers: map[string]func(ctx context.Context, name string, options map[string]string) (physical.DatasourceImplementation, physical.Schema, error){
+				"csv": csvds.Creator(','), "json": jsonds.Creator, "lines": linesds.Creator, "parquet": parquetds.Creator, "tsv": csvds.Creator('\t'),
+			},
 		},
 	}
 }
@@ -140,7 +156,7 @@ func Plan(sql string, env physical.Environment) (plan physical.Node, mapping map
 				res = Result{Stage: "typecheck", Err: fmt.Sprint(p)}
 			}
 		}()
-		plan, mapping = lp.Typecheck(context.Background(), env, logical.Environment{
+		plan, mapping = lp.Typecheck(Ctx(), env, logical.Environment{
 			CommonTableExpressions: map[string]logical.CommonTableExpression{},
 			TableValuedFunctions:   tvfs,
 			UniqueNameGenerator:    gen,
@@ -156,7 +172,7 @@ func Run(sql string, tables map[string]*Table, optimize bool) (res Result) {
 			res.Stage, res.Err = "panic", fmt.Sprint(p)
 		}
 	}()
-	ctx := context.Background()
+	ctx := Ctx()
 	env := Env(tables)
 	plan, mapping, oo, r := Plan(sql, env)
 	if r.Stage != "" {
